@@ -27,20 +27,20 @@ CHECKS = {
     'text': 'Seeded exploration of the real dispatcher + timeout sink + WatermarkPoolSink over stub transports that honour message deadlines: (min,max,queue) in [0..3]x[..4]x{0..5,inf}, bursts, waiters timing out while queued, connections dying while lent/cached/opening, failing/slow opens. Oracles at every stub event and every quiescent point: <= max connections, exclusive lending, FIFO hand-off, immediate MaxWaitersError, work conservation, <= min retained, waiters failed exactly once when a dead connection is released.',
     'design_ref': 'DESIGN.md 5 C07', 'note': 'Stub transports are harness code (documented SinkProvider extension point); behaviour after the pool has closed itself is not checked (the stack replaces a closed pool).'},
   'C08': {
-    'text': 'Fault enumeration: a fault-free pilot run of a generated scenario on the real serial-Thrift / ThriftMux transport (under dispatcher + timeout sink + serializer, on VarzSocketWrapper(ScalesSocket)) records every client-side I/O operation; then one run per (operation x {exception, EOF, refusal, silence/black-hole}) incl. reconnect-after-timeout and ping-timeout positions. Oracle: in-flight requests fail exactly once and promptly, state Closed, fault signal fired, and a transport reporting Open+idle carries a fresh probe request.',
+    'text': 'Fault enumeration: a fault-free pilot run of a generated scenario on the real serial-Thrift / ThriftMux transport (under dispatcher + timeout sink + serializer, on VarzSocketWrapper(ScalesSocket)) records every client-side I/O operation; then one run per (operation x {exception (errno drawn per run), EOF, refusal, silence/black-hole, peer stops reading mid-frame}) incl. reconnect-after-timeout and ping-timeout positions. Oracle: in-flight requests fail exactly once and promptly, state Closed, fault signal fired, and a transport reporting Open+idle carries a fresh probe request.',
     'design_ref': 'DESIGN.md 5 C08', 'note': 'Exhaustive over the I/O operations of each sampled base scenario (one fault per run); base scenarios, chunking and timing are sampled.'},
   'C09': {
-    'text': 'Seeded exploration of full stacks under endpoint down/up histories (crash, refuse, black hole, reset, down at first connect) with steady background traffic over long virtual horizons (back-off 2-120 s costs nothing): fail-fast while every member is down, reconnection attempts of each resurrector (observed at its sink factory) have non-decreasing gaps capped at max and do not stop, a healed endpoint receives traffic within max_wait (+127 s kernel SYN timeout after a black hole), no new transport connects after DispatcherClose.',
-    'design_ref': 'DESIGN.md 5 C09', 'note': _STACK_NOTE + ' Liveness is bounded: >= 40 calls issued after the bound, members always in the balancer (heap, or aperture with min_size = members).'},
+    'text': 'Seeded exploration of full stacks under endpoint down/up histories (crash, refuse, black hole, reset, down at first connect) with steady background traffic over long virtual horizons (back-off 2-120 s costs nothing): fail-fast while every member is down, reconnection attempts of each resurrector (observed at its sink factory) have non-decreasing gaps capped at max and do not stop, a healed endpoint receives traffic within max_wait (+127 s kernel SYN timeout after a black hole), no new transport connects after DispatcherClose. Variants: aperture smaller than the server set with every member down and one returning, first connection dying in its handshake, client closed during a burst while idle members are unreachable.',
+    'design_ref': 'DESIGN.md 5 C09', 'note': _STACK_NOTE + ' Liveness is bounded: >= 40 calls issued after the bound, for an aperture smaller than the server set the recovery clause applies only while no other member could serve.'},
   'C10': {
     'text': 'Seeded exploration: the real TimerQueue runs on the virtual clock; generated Schedule/cancel histories from several driver greenlets are interleaved with the worker\'s clear/sleep/peek/wait steps (ops snapped to pending deadlines, past/equal deadlines, cancel of head); every run is checked against a reference schedule (once, not early, by the rounded deadline, cancelled never runs, order by rounded deadline then scheduling order).',
     'design_ref': 'DESIGN.md 5 C10',
-    'note': 'Trusts SimLoop as a model of gevent scheduling; 1 ms slack on lateness, one float step on rounding; samples schedules, does not enumerate them.'},
+    'note': 'Trusts SimLoop as a model of gevent scheduling; 1 ms slack on lateness, 1 ns on earliness, one float step on rounding; samples schedules, does not enumerate them.'},
   'C11': {
     'text': 'ThriftMux stack against a mux peer that logs every Tdispatch tag per connection and keeps the set of unanswered tags; adversarial batches add duplicate replies, replies on never-issued tags, non-ping frames on tags 0/1; tag counter started near 2^8/2^16/2^24. Oracle at every Tdispatch: 2 <= tag <= 2^24-2 and tag not unanswered; at the end the highest tag is bounded by base + peak concurrency + timeouts.',
     'design_ref': 'DESIGN.md 5 C11', 'note': _STACK_NOTE + ' The tag_base knob pokes TagPool._next (guarded, harness only).'},
   'C12': {
-    'text': 'Full stacks with deadlines placed relative to every hop (open pending, pool queue, connect in progress, mux send queue under back-pressure, on the wire). Every send() invocation is logged with a global order; oracle: after a caller was handed TimeoutError no later send carries that call\'s id, and for mux a request already written to a still-healthy connection is followed by a Tdiscarded naming its tag.',
+    'text': 'Full stacks with deadlines placed relative to every hop (open pending, pool queue, connect in progress, mux send queue under back-pressure, on the wire). Every send() invocation is logged with a global order; oracle: after a caller was handed TimeoutError no later send carries that call\'s id, and for mux a request already written to a still-healthy connection is followed by a Tdiscarded naming its tag. A fifth of the runs drive the Kafka stack (router retry after a slow metadata refresh): nothing of a Put is written after its caller got TimeoutError.',
     'design_ref': 'DESIGN.md 5 C12', 'note': _STACK_NOTE},
   'C13': {
     'text': 'The mux peer re-parses the whole byte stream of every connection with the harness\'s own codec (no residue allowed) and compares each Tdispatch with what was supplied: contexts (client id, caller properties incl. non-ASCII/empty, Deadline vs the call deadline on the virtual clock), empty dst/dtab, Thrift payload; Tdiscarded frames; replies of every type (Rdispatch OK/ERROR/NACK with reply contexts, Rerr, BAD_Rerr) and large tags travel back through the real receive loop and must produce the matching caller outcome.',
@@ -66,7 +66,7 @@ CHECKS.update({
     'text': 'Scripted join/leave histories (duplicates, unknown leaves, leave-while-loaded then re-join, notifications during a slow initial listing, failing Initialize) interleaved with traffic: whenever the notification queue has drained, the balancer\'s members (heap plus idle set) equal the server set without duplicates; for the heap balancer a saturation probe (3N never-completing calls) must reach exactly the current members.',
     'design_ref': 'DESIGN.md 5 C05', 'note': _BAL_NOTE + ' The ZooKeeper-backed provider is covered by C19.'},
   'C06': {
-    'text': 'Aperture balancer under generated configurations (min/max size, load band, members, jitter) and histories: at every quiescent point active and idle sets partition the members, contraction keeps min(min_size, members) active, growth without failures stays within max_size, published gauges equal the sets; steady-traffic runs hold a constant concurrency for 70 virtual seconds (14 EMA windows) and flag only the unambiguous cases (should have grown / should have shrunk).',
+    'text': 'Aperture balancer under generated configurations (min/max size, load band, members, jitter) and histories: at every quiescent point active and idle sets partition the members, contraction keeps min(min_size, members) active, growth without failures stays within max_size, published gauges equal the sets; steady-traffic runs hold a constant concurrency for 70 virtual seconds (14 EMA windows) and flag only the unambiguous cases (should have grown / should have shrunk); post-conditions at the decision points of the code (every _AdjustAperture call; growth between quiescent points has a cause).',
     'design_ref': 'DESIGN.md 5 C06', 'note': _BAL_NOTE},
   'C15': {
     'text': 'The client built by Kafka.NewBuilder() runs against 1-3 simulated brokers that parse every byte with the harness\'s own v0 parser: header (size, api key, version 0, correlation id, client id), one topic / one partition, message-set and message sizes, CRC32, payloads equal to the caller\'s (empty list, empty, binary, 70 kB), acks, routing to the partition leader from the metadata response; concurrent Puts with reordered, chunked replies must each receive the response generated for their own correlation id, broker error codes must surface as KafkaError with that code.',
